@@ -22,8 +22,9 @@ def mutate(rng, s):
     # the same name offered by a second provider (guards: `cond` only — a multi-provider `unless`
     # is a conjunction *inside* one entry, which the engine model's entry list does not express)
     aliased = {c.alias_of for c in s.cbs if c.alias_of} | {c.id for c in s.cbs if c.alias_of}
+    sharing = {c.name for c in s.cbs if c.same_as}      # (one function referred to from several transitions)
     for c in list(s.cbs):
-        if c.style == "name" and c.group != "unless" and c.id not in aliased and rng.random() < 0.3:
+        if c.style == "name" and c.group != "unless" and c.id not in aliased and c.name not in sharing and rng.random() < 0.3:
             others = [p for p in PROFILE.providers[:4] if p != c.provider
                       and not any(x.name == c.name and x.provider == p for x in s.cbs)]
             if others:
